@@ -38,26 +38,30 @@ macro "frame_split" : tactic => `(tactic| ((repeat' split) <;> first | rfl | sim
 
 /-! ### `stop` in named pieces -/
 
-def stopA (s : St) (err : Bool) : St := { s with lastErr := err, acceptor := false }
+def stopA (s : St) (err : Bool) : St := { s with lastErr := err, acceptor := false, doVerify := s.doVerify && !err }
 def stopPeers (s : St) : St := s.peers.foldl (fun s p => s.closePeer p.k) s
 def stopClear (s : St) : St := { s with dls := [], mayStart := [], idls := [], mayStartI := false }
 def stopWB (s : St) : St := if s.bf.isSome then s.writeBitfield else s
+/-- The data (non-padding) files, in order: what the allocator opens. -/
+def allocData (s : St) : List Nat := (List.range s.cfg.flens.length).filter (fun i => !(s.cfg.fpads.getD i false))
+/-- The allocator's `Open` of data file number `failAt` fails. -/
+def allocFailing (s : St) : Bool := s.failOpen && s.failAt < (allocData s).length
+/-- The files the allocator opens (and creates, if missing) before it fails or finishes. -/
+def allocOpened (s : St) : List Nat := if allocFailing s then (allocData s).take s.failAt else allocData s
+
 def stopAlloc (s : St) : St :=
   if s.allocator then
-    let opened := (List.range s.cfg.flens.length).filter (fun i => !(s.cfg.fpads.getD i false))
-    if s.failOpen then
-      { s with allocator := false, gateOpen := false, sto := s.sto ++ ["openfail:" ++ fileName s.cfg (opened.headD 0)] }
-    else
     { s with allocator := false, gateOpen := false,
-             sto := s.sto ++ opened.map (fun i =>
+             sto := s.sto ++ (allocOpened s).map (fun i =>
                s!"open:{fileName s.cfg i}:{s.cfg.flens.getD i 0}:" ++
                  (if s.fileExists.getD i false then "existed" else "new")) ++
-               opened.map (fun i => "close:" ++ fileName s.cfg i),
-             fileExists := (List.range s.cfg.flens.length).map (fun i => s.fileExists.getD i false || opened.contains i),
-             known := (List.range s.cfg.flens.length).map (fun i => s.known.getD i false || opened.contains i),
+               (if allocFailing s then ["openfail:" ++ fileName s.cfg ((allocData s).getD s.failAt 0)] else []) ++
+               (allocOpened s).map (fun i => "close:" ++ fileName s.cfg i),
+             fileExists := (List.range s.cfg.flens.length).map (fun i => s.fileExists.getD i false || (allocOpened s).contains i),
+             known := (List.range s.cfg.flens.length).map (fun i => s.known.getD i false || (allocOpened s).contains i),
              leaked := s.leaked,
-             bf := if opened.any (fun i => !(s.fileExists.getD i false)) then none else s.bf,
-             persisted := if opened.any (fun i => !(s.fileExists.getD i false)) && s.bf.isSome then none else s.persisted }
+             bf := if (allocOpened s).any (fun i => !(s.fileExists.getD i false)) then none else s.bf,
+             persisted := if (allocOpened s).any (fun i => !(s.fileExists.getD i false)) && s.bf.isSome then none else s.persisted }
   else s
 def stopVer (s : St) : St := if s.verifier then { s with verifier := false, gateRead := false } else s
 def stopFin (s : St) : St := { s with stopAnn := true }
@@ -95,7 +99,7 @@ def pwdBan (m : M) (w : WriteJob) : M :=
   onSt m (·.startDls)
 
 def pwdDone (m : M) (w : WriteJob) : M :=
-  onSt m fun s => if w.gen ≠ m.1.gen then s else { s with done := setAt s.done w.piece true }
+  onSt m fun s => { s with done := setAt s.done w.piece true }
 
 def pwdSet (m : M) (w : WriteJob) (b : List Bool) : M :=
   let m := if b.getD w.piece false then onSt m (·.crash "already have the piece") else m
@@ -125,6 +129,7 @@ theorem handlePieceWriteDone_eq (m : M) (w : WriteJob) (writeErr : Bool) :
     handlePieceWriteDone m w writeErr =
       let m := pwdReset m w
       if !w.good then pwdBan m w
+      else if w.gen ≠ m.1.gen || !m.1.loaded then m
       else if writeErr then onSt m (·.stop true)
       else
         let m := pwdDone m w
@@ -203,6 +208,40 @@ theorem handleVerificationDone_eq (m : M) :
       let m := hvdInstall m
       if m.1.doVerify then onSt m fun s => ({ s with doVerify := false }).stop false
       else hadCheck (hvdHaves m) := rfl
+
+/-! ### `allocatorRun` in named pieces -/
+
+/-- The storage calls of an allocation whose `Open` of data file `failAt` fails: the files before it are opened
+(created, if missing) and closed again. -/
+def allocFailOpen (m : M) : M :=
+  onSt m fun s =>
+    { s with sto := s.sto ++ ((allocData m.1).take m.1.failAt).map (fun i =>
+               s!"open:{fileName s.cfg i}:{s.cfg.flens.getD i 0}:" ++ (if s.fileExists.getD i false then "existed" else "new")) ++
+               ["openfail:" ++ fileName s.cfg ((allocData m.1).getD m.1.failAt 0)] ++
+               ((allocData m.1).take m.1.failAt).map (fun i => "close:" ++ fileName s.cfg i),
+             fileExists := (List.range s.cfg.flens.length).map (fun i => s.fileExists.getD i false || ((allocData m.1).take m.1.failAt).contains i),
+             known := (List.range s.cfg.flens.length).map (fun i => s.known.getD i false || ((allocData m.1).take m.1.failAt).contains i),
+             allocator := false }
+
+/-- One of the files the failing allocation opened did not exist (it has been re-created). -/
+def allocFailMissing (s : St) : Bool := ((allocData s).take s.failAt).any fun i => !(s.fileExists.getD i false)
+
+/-- The failing allocation: storage calls, the bitfield forgotten if a file was re-created (fix C05-F2), `stop(err)`. -/
+def allocFail (m : M) : M := onSt (hadForget (allocFailOpen m) (allocFailMissing m.1)) (·.stop true)
+
+/-- The storage calls of a successful allocation. -/
+def allocOkOpen (m : M) : M :=
+  onSt m fun s =>
+    { s with sto := s.sto ++ (allocData m.1).map (fun i =>
+               s!"open:{fileName s.cfg i}:{s.cfg.flens.getD i 0}:" ++ (if s.fileExists.getD i false then "existed" else "new")),
+             fileExists := (List.range s.cfg.flens.length).map (fun i => s.fileExists.getD i false || (allocData m.1).contains i),
+             known := (List.range s.cfg.flens.length).map (fun i => s.known.getD i false || (allocData m.1).contains i) }
+
+theorem allocatorRun_eq (m : M) :
+    allocatorRun m =
+      if allocFailing m.1 then allocFail m
+      else handleAllocationDone (allocOkOpen m) ((allocData m.1).any fun i => m.1.fileExists.getD i false)
+        ((allocData m.1).any fun i => !(m.1.fileExists.getD i false)) := rfl
 
 /-! ### `handleMetadataData`: the tail after the last block arrived with the right hash -/
 
